@@ -119,10 +119,10 @@ def _write_tree(root, defs, layout):
     return d
 
 
-def _generate(cfg_extra, queries, patch_post=None):
+def _generate(cfg_extra, queries, patch_post=None, root=None):
     from ariadne_codegen.main import client
     os.makedirs(e2e.SCRATCH, exist_ok=True)
-    root = tempfile.mkdtemp(prefix="src_", dir=e2e.SCRATCH)
+    root = root or tempfile.mkdtemp(prefix="src_", dir=e2e.SCRATCH)
     pkg = "client_pkg"
     with open(os.path.join(root, "queries.graphql"), "w") as f:
         f.write(queries)
@@ -250,6 +250,27 @@ def compare_sources(name, sdl, queries, tier):
             return 1, [dict(inputs=dict(scenario=f"{name}/single-file"), cases=["generation-fails"], failed=["single-file-source-generates"],
                             outcome=f"{type(e).__name__}: {str(e)[:300]}")]
         roots.append(base_root)
+        # the same path first held another schema (and other operations) that was generated from in this very interpreter
+        # and was then rewritten in place: the source is the file as it is now
+        cases += 1
+        try:
+            r0 = tempfile.mkdtemp(prefix="src_", dir=e2e.SCRATCH)
+            roots.append(r0)
+
+            def decoy(root):
+                p = os.path.join(root, "schema.graphql")
+                open(p, "w").write("enum Decoy { ONLY }\ninput DecoyIn { d: Decoy = ONLY }\ntype Query { decoy(i: DecoyIn): Decoy }\n")
+                return dict(schema_path=p)
+            _generate(decoy, "query D($i: DecoyIn) { decoy(i: $i) }", root=r0)
+            shutil.rmtree(os.path.join(r0, "client_pkg"), ignore_errors=True)
+            _, files = _generate(from_file, queries, root=r0)
+            diff = sorted(f for f in set(files) | set(base) if files.get(f) != base.get(f))
+            if diff:
+                fails.append(dict(inputs=dict(scenario=f"{name}/file-rewritten-in-place"), cases=[f"file-differs:{f}" for f in diff],
+                                  failed=["the-source-is-the-file-as-it-is-now"], outcome=f"{len(diff)} files differ"))
+        except Exception as e:      # noqa
+            fails.append(dict(inputs=dict(scenario=f"{name}/file-rewritten-in-place"), cases=["generation-fails"],
+                              failed=["the-source-is-the-file-as-it-is-now"], outcome=f"{type(e).__name__}: {str(e)[:300]}"))
         base_inputs = _input_models(base_root)
         defs = _definitions(sdl)
         for pname, layout in _partitions(defs, tier):
